@@ -63,7 +63,7 @@ class MachineryError(Exception):
 
 # --------------------------------------------------------------------------- cases
 class Case:
-    __slots__ = ('cid', 'kind', 'tags', 'desc', 'm', 's', 'py_fail', 'nontrivial', 'key', 'imports')
+    __slots__ = ('cid', 'kind', 'tags', 'desc', 'm', 's', 'py_fail', 'nontrivial', 'key', 'imports', 'origin')
 
     def __init__(self, kind, desc, m=None, s=None, py_fail=None, tags=None, nontrivial=True, key=None):
         self.cid = None
@@ -75,6 +75,7 @@ class Case:
         self.tags = tags or {}
         self.nontrivial = nontrivial
         self.key = key if key is not None else json.dumps(desc, sort_keys=True, default=str)
+        self.origin = None          # (seed, scale) of the Context that generated it
 
 
 # --------------------------------------------------------------------------- coq build
@@ -176,9 +177,34 @@ def parse_assumptions(output):
 FORBIDDEN_RE = re.compile(r'\b(Admitted|admit|Axiom|Axioms|Parameter|Parameters|Conjecture|Admit Obligations|Unset Guard Checking|bypass_check|Unset Universe Checking|Unset Positivity Checking)\b')
 
 
-def scan_forbidden():
+_REQ_RE = re.compile(r'\b(SF|Gen|Proofs|Properties|Refuted)\.([A-Za-z0-9_]+)')
+
+
+def dep_closure(files):
+    '''Files of our development that the given files depend on (through Require lines), including themselves.'''
+    seen, todo = set(), list(files)
+    while todo:
+        rel = todo.pop()
+        if rel in seen:
+            continue
+        seen.add(rel)
+        try:
+            with open(os.path.join(COQ, rel)) as f:
+                text = f.read()
+        except OSError:
+            continue
+        for ln in text.splitlines():
+            if 'Require' in ln or re.match(r'^\s+[A-Z][A-Za-z]*\.', ln):
+                for d, n in _REQ_RE.findall(ln):
+                    todo.append(f'{d}/{n}.v')
+    return sorted(seen)
+
+
+def scan_forbidden(files=None):
     hits = []
-    for rel in coq_sources():
+    for rel in (files if files is not None else coq_sources()):
+        if not os.path.exists(os.path.join(COQ, rel)):
+            continue
         with open(os.path.join(COQ, rel)) as f:
             text = f.read()
         # strip comments (non-nested is enough for our sources; nested handled by loop)
@@ -258,8 +284,11 @@ def eval_cases(prop_id, imports, cases, shard_size=400):
 # --------------------------------------------------------------------------- known findings
 def load_known(prop_id):
     active, fixed = [], []
-    if os.path.exists(KNOWN):
-        with open(KNOWN) as f:
+    paths = [KNOWN, os.path.join(VERIF, 'known', f'{prop_id}.jsonl')]   # known/Cxx.jsonl: entries not yet merged into KNOWN
+    for path in paths:
+        if not os.path.exists(path):
+            continue
+        with open(path) as f:
             for ln in f:
                 ln = ln.strip()
                 if not ln or ln.startswith('#'):
@@ -323,9 +352,9 @@ def run_check(prop, tier, seed):
     try:
         # 1. translate
         broken_translation = tg.regenerate(REPO, COQ)
-        my_broken = [(t, why) for t, why in broken_translation if t['coq'] in getattr(prop, 'TRANSLATED', ())]
+        my_broken = [(t, why) for t, why in broken_translation if t['coq'] in getattr(prop, 'TRANSLATED', ()) or t.get('owner') == pid]
         # 2. prove
-        forbidden = scan_forbidden()
+        forbidden = scan_forbidden(dep_closure(list(prop.PROPERTY_FILES) + list(getattr(prop, 'REFUTED_FILES', ())) + list(getattr(prop, 'MODEL_FILES', ()))))
         if forbidden:
             raise MachineryError('forbidden constructs in the Coq development: ' + '; '.join(forbidden[:5]))
         prop_files = list(prop.PROPERTY_FILES)
@@ -373,12 +402,13 @@ def run_check(prop, tier, seed):
     # 3. correspondence
     ctx = Context(pid, tier, seed)
     cases, fail_m, fail_s, py_fail, corr_error = [], set(), set(), [], None
-    model_ok = ok_models and not any(t['coq'] in getattr(prop, 'MODEL_TRANSLATED', getattr(prop, 'TRANSLATED', ())) for t, _ in broken_translation)
+    model_ok = ok_models and not any(t['coq'] in getattr(prop, 'MODEL_TRANSLATED', getattr(prop, 'TRANSLATED', ())) or t.get('owner') == pid for t, _ in broken_translation)
 
     def explore(ctx):
         cs = list(prop.cases(ctx))
         for i, c in enumerate(cs):
             c.cid = i
+            c.origin = (ctx.seed, ctx.scale)
         if not model_ok:
             for c in cs:
                 c.m = None
@@ -440,6 +470,7 @@ def run_check(prop, tier, seed):
             for i, c in enumerate(scs):
                 c.cid = i
                 c.m = None
+                c.origin = (search_ctx.seed, search_ctx.scale)
             _, sfs = eval_cases(pid, getattr(prop, 'IMPORTS_SPEC_ONLY', prop.IMPORTS), scs)
             for c in scs:
                 if c.cid in sfs or c.py_fail:
@@ -457,7 +488,7 @@ def run_check(prop, tier, seed):
             if sig in seen:
                 continue
             seen.add(sig)
-            path = write_replay(pid, {'property': pid, 'seed': seed, 'tier': tier, 'stratum': c.kind, 'tags': c.tags,
+            path = write_replay(pid, {'property': pid, 'seed': seed, 'tier': tier, 'stratum': c.kind, 'tags': c.tags, 'origin': list(c.origin or (seed, 1.0)), 'case_key': c.key,
                                        'case': c.desc, 'python_side_reason': c.py_fail,
                                        'verdict': 'implementation output differs from the specification S (impl != S)',
                                        'broken_obligations': broken_things})
@@ -529,3 +560,41 @@ def run_check(prop, tier, seed):
     if exit_code and proof_log:
         print(proof_log[:2000])
     return exit_code
+
+
+def generic_replay(prop, payload):
+    '''Re-run one recorded case (or, for a no-failing-input-found replay, the whole check).'''
+    pid = prop.ID
+    if 'case' not in payload:
+        print(f'[{pid}] replay names broken obligations, not an input: re-running the check')
+        for b in payload.get('broken_obligations', []):
+            print('  broken:', json.dumps(b, default=str)[:300])
+        return run_check(prop, payload.get('tier', 'quick'), int(payload.get('seed', 0)))
+    from . import targets as tg
+    lock = _lock()
+    try:
+        tg.regenerate(REPO, COQ)
+        make_targets([p[:-2] + '.vo' for p in getattr(prop, 'MODEL_FILES', ())])
+    finally:
+        lock.close()
+    seed, scale = payload.get('origin', [payload.get('seed', 0), 1.0])
+    ctx = Context(pid, payload.get('tier', 'quick'), int(seed), scale=float(scale))
+    key = payload.get('case_key') or json.dumps(payload['case'], sort_keys=True, default=str)
+    found = None
+    for c in prop.cases(ctx):
+        if c.key == key:
+            found = c
+            break
+    if found is None:
+        print(f'[{pid}] replay: the recorded case is no longer generated (generator changed?)')
+        return 2
+    found.cid = 0
+    fm, fs = eval_cases(pid, prop.IMPORTS, [found])
+    bad = bool(found.py_fail) or 0 in fs
+    print(f'[{pid}] replay stratum={found.kind} case={json.dumps(found.desc, default=str)[:600]}')
+    print(f'[{pid}] python-side: {found.py_fail}; impl!=S: {0 in fs}; impl!=M: {0 in fm}')
+    if bad:
+        print(f'VIOLATION property={pid} replay={payload.get("_path", "<replay>")}')
+        return 1
+    print(f'[{pid}] replay: the case no longer fails')
+    return 0
